@@ -147,6 +147,9 @@ type Obligation struct {
 	OK      bool
 	Detail  string
 	Model   map[string]string
+	// RC: what a replay of a solver model needs (function, parameter terms, entry heap); Clause: the contract clause
+	RC     *ReplayCtx `json:"-"`
+	Clause *Clause    `json:"-"`
 }
 
 func (o *Obligation) Discharged() bool {
